@@ -25,9 +25,30 @@ def fn(name, *sorts):
 _fresh_counter = [0]
 
 
+FRESH_LOG = []          # every fresh constant, in creation order (used to lift constants created under a bound variable to functions of it)
+
+
 def fresh(prefix, sort):
     _fresh_counter[0] += 1
-    return z3.Const(f"{prefix}!{_fresh_counter[0]}", sort)
+    c = z3.Const(f"{prefix}!{_fresh_counter[0]}", sort)
+    FRESH_LOG.append(c)
+    return c
+
+
+def lift_fresh(mark, bound_vars, exprs):
+    """Constants created since `mark` were created while evaluating an expression under the bound variables: each stands for a value
+    that may differ per binding, so it is replaced by an application of a new function to the bound variables."""
+    new = FRESH_LOG[mark:]
+    bound_ids = {v.get_id() for v in bound_vars}
+    subs = []
+    for c in new:
+        if c.get_id() in bound_ids:
+            continue
+        f = z3.Function(c.decl().name() + "!fn", *[v.sort() for v in bound_vars], c.sort())
+        subs.append((c, f(*bound_vars)))
+    if not subs:
+        return exprs
+    return [z3.substitute(e, *subs) for e in exprs]
 
 
 def sort_name(s):
